@@ -2167,7 +2167,7 @@ loadbuf(ESL_SQFILE *sqfp)
       }
       if (status != eslEOF) {
         n = nlp - (ascii->mem + ascii->mpos) + 1; /* inclusive of \n */
-        if (ascii->nc + n + 1 > ascii->balloc) {
+        while (ascii->nc + n + 1 > ascii->balloc) { /* a line inside recorded <mem> can be longer than one read block */
           ESL_RALLOC(ascii->buf, tmp, sizeof(char) * (ascii->balloc + eslREADBUFSIZE));
           ascii->balloc += eslREADBUFSIZE;
         }
